@@ -343,6 +343,10 @@ func (x *Exec) eqValue(a, b Value) string {
 		}
 		return and(eq(av.Tag, bi.Tag), eq(av.Ref, bi.Ref))
 	case SliceV:
+		if bs, ok := b.(SliceV); ok {
+			// contract-level equality of two slice values: the same window of the same array
+			return and(eq(av.Base, bs.Base), eq(av.Off, bs.Off), eq(av.Len, bs.Len), eq(av.Cap, bs.Cap))
+		}
 		return x.isNil(a)
 	case ArrayV:
 		br := b.(ArrayV)
@@ -359,6 +363,9 @@ func (x *Exec) eqValue(a, b Value) string {
 		}
 		return and(cs...)
 	case FuncV:
+		if bf, ok := b.(FuncV); ok && bf.Name != "" && av.Name != "" {
+			return eq(av.Name, bf.Name)
+		}
 		return x.isNil(a)
 	case GhostArr:
 		return eq(av.T, x.term(b))
@@ -919,7 +926,7 @@ func (x *Exec) elemLeaves(el types.Type, key string, out *[][2]string) {
 		*out = append(*out, [2]string{key + "#tag", "Int"}, [2]string{key + "#ref", "Int"})
 		return
 	case *types.Array:
-		x.elemLeaves(u.Elem(), key+"[]", out)
+		x.elemLeaves(u.Elem(), arrayElemKey(key), out)
 		return
 	}
 	*out = append(*out, [2]string{key, sortOf(el)})
